@@ -269,6 +269,8 @@ def plan_candidates(plan):
                 yield "drop call %d.%d" % (i, j), p
     for i, calls in enumerate(tasks):
         for j, c in enumerate(calls):
+            if not isinstance(c, dict):
+                continue
             cmds = c.get("cmds") or []
             if len(cmds) > 1:
                 for k in range(len(cmds)):
@@ -365,7 +367,7 @@ def run_check(prop, tier):
         runs = part["quick"] if tier == "quick" else part.get("thorough", part["quick"] * 20)
         seed0 = (seedbase * 1000003 + pi * 7919) % (1 << 40) * 1000 + 1
         b = Batch(built[part["module"]], part["scenario"], tier, part.get("variant", ""),
-                  tuple(part.get("procs", (1, 2, 4))), timeout=part.get("timeout", 150 if tier == "quick" else 7200))
+                  tuple(part.get("procs", (1, 2, 4))), timeout=part.get("timeout", 90 if tier == "quick" else 7200))
         tp = time.time()
         b.run(seed0, runs)
         parts_summary.append({"scenario": part["scenario"], "runs_requested": runs, "runs_completed": len(b.outcomes),
